@@ -21,7 +21,7 @@ func c10ExtraStream(t *testing.T, rep *hx.Report, rng *hx.RNG, env hx.Env) {
 		c := genRunLevel(rng)
 		c.Noise = 0
 		c.Silent = map[int]bool{}
-		mode := []string{"close-sink", "close-source", "close-both", "slow-send-at-dest", "slow-send"}[i%5]
+		mode := []string{"close-sink", "close-source", "close-both", "slow-send-at-dest", "slow-send", "slow-read-past-deadline"}[i%6]
 		switch mode {
 		case "close-sink":
 			c.Faults = []wireFault{{Op: "close-sink", K: 0, Class: "fatal"}}
@@ -36,6 +36,10 @@ func c10ExtraStream(t *testing.T, rep *hx.Report, rng *hx.RNG, env hx.Env) {
 				c.Max = c.DestHop + 2
 			}
 			c.Faults = []wireFault{{Op: "write", K: c.DestHop - c.Min + 1, Class: "fatal-slow", SlowBy: 60 * time.Millisecond}}
+		case "slow-read-past-deadline":
+			// a capture read that is still blocked when the run's listening time is over, and then fails
+			c.DestHop = c.Max + 2
+			c.Faults = []wireFault{{Op: "read", K: rng.Range(0, 6), Class: "fatal-slow", SlowBy: time.Duration(rng.Range(400, 3000)) * time.Millisecond}}
 		default:
 			c.Faults = []wireFault{{Op: "write", K: rng.Intn(c.Max - c.Min + 1), Class: "fatal-slow", SlowBy: time.Duration(rng.Range(1, 80)) * time.Millisecond}}
 		}
@@ -44,7 +48,7 @@ func c10ExtraStream(t *testing.T, rep *hx.Report, rng *hx.RNG, env hx.Env) {
 			"mode": mode, "faults": fmt.Sprint(c.Faults), "script_seed": c.Seed, "error": fmt.Sprint(o.Err), "reported_hops": hopsString(o.Hops),
 			"source_closes": o.SrcClose, "sink_closes": o.SnkClose}
 		rep.Case("extra/"+mode+"/"+c.Proto, fmt.Sprint(c.Proto, c.Min, c.Max, c.DestHop, c.Seed, mode), true, replay)
-		rep.Hit("extra:" + mode + ":" + map[bool]string{true: "err", false: "ok"}[o.Err != nil] + map[bool]string{true: ":fault-reached", false: ""}[len(c.Faults) > 0 && c.Faults[0].Op == "write" && o.WriteCalls > c.Faults[0].K])
+		rep.Hit("extra:" + mode + ":" + map[bool]string{true: "err", false: "ok"}[o.Err != nil] + map[bool]string{true: ":fault-reached", false: ""}[len(c.Faults) > 0 && ((c.Faults[0].Op == "write" && o.WriteCalls > c.Faults[0].K) || (c.Faults[0].Op == "read" && o.ReadCalls > c.Faults[0].K))])
 		bad := ""
 		if o.SrcClose != 1 || o.SnkClose != 1 {
 			bad = fmt.Sprintf("capture handle closed %d times, send handle closed %d times (each must be closed exactly once)", o.SrcClose, o.SnkClose)
@@ -58,6 +62,16 @@ func c10ExtraStream(t *testing.T, rep *hx.Report, rng *hx.RNG, env hx.Env) {
 					bad = fmt.Sprintf("a probe send failed (call #%d) but the run returned a path as a success", c.Faults[0].K)
 				} else if !errors.Is(o.Err, errWireInjected) {
 					bad = "the error does not wrap the injected send failure: " + o.Err.Error()
+				} else if o.Hops != nil {
+					bad = "an error was returned together with a result"
+				}
+			}
+		} else if mode == "slow-read-past-deadline" {
+			if o.ReadCalls > c.Faults[0].K { // the faulted read was reached
+				if o.Err == nil {
+					bad = fmt.Sprintf("a capture read failed (call #%d, returning after the listening time was over) but the run returned a path as a success", c.Faults[0].K)
+				} else if !errors.Is(o.Err, errWireInjected) {
+					bad = "the error does not wrap the injected read failure: " + o.Err.Error()
 				} else if o.Hops != nil {
 					bad = "an error was returned together with a result"
 				}
